@@ -375,7 +375,11 @@ func goFuncWriteAPI(ps *spec.Proc, t *sp.Task) {
 		t.OutIP(port).Write(data)
 		outs[port] = vproto.Sha(data)
 	}
-	vproto.Emit(&vproto.Event{Ev: "end", ID: c.ID, Key: key, Pid: os.Getpid(), Status: 0, Outs: outs, InProc: true})
+	ins := map[string]string{}
+	for _, kv := range inShas {
+		ins[kv.K] = kv.V
+	}
+	vproto.Emit(&vproto.Event{Ev: "end", ID: c.ID, Key: key, Pid: os.Getpid(), Status: 0, Ins: ins, Outs: outs, InProc: true})
 }
 
 // ---------------------------------------------------------------------------
